@@ -446,6 +446,60 @@ def run(ctx):
                        file=FILE, line=te.lineno)
                 if op == op0:
                     ctx.note(f'operator `{op}` falls to the generic arg0.op(op)(arg1) translation (listed)')
+    # every branch of an isinstance dispatch is reachable by the class it names: a branch for a class whose ancestor was tested earlier (without further
+    # condition) never runs, and the nodes of that class are rendered by the ancestor's rule (NOT EXISTS as EXISTS) ----------------------------------------------
+    isa_real = model_for(ctx.src).isa_table()
+    nbr = 0
+    for fn_ in [m for m in cls.body if isinstance(m, ast.FunctionDef)]:
+        for first in [n for n in ast.walk(fn_) if isinstance(n, ast.If) and not (isinstance(getattr(n, '_parent', None), ast.If) and n._parent.orelse == [n])]:
+            covered = {}          # subject text -> class names already taken by an unconditional earlier test
+            node_ = first
+            while True:
+                tst = node_.test
+                if isinstance(tst, ast.Call) and dotted(tst.func) == 'isinstance' and len(tst.args) == 2:
+                    subj = norm(tst.args[0])
+                    names_ = [dotted(x).split('.')[-1] for x in (tst.args[1].elts if isinstance(tst.args[1], ast.Tuple) else [tst.args[1]]) if dotted(x)]
+                    for cn_ in names_:
+                        if cn_ not in isa_real:
+                            continue
+                        nbr += 1
+                        shadow = sorted(({cn_} | isa_real[cn_]) & covered.get(subj, set()))
+                        ctx.ob('C06.dispatch-reachable', f'{fn_.name}:{subj}:{cn_}', not shadow,
+                               f'{fn_.name}: the branch `isinstance({subj}, {cn_})` comes after a branch that already takes every {shadow[0] if shadow else ""} - and {cn_} is '
+                               f'one: the branch never runs, {cn_} nodes are rendered by the rule of {shadow[0] if shadow else ""}', file=FILE, line=node_.lineno,
+                               witness='select * from t where not exists (select 1 from s)')
+                    covered.setdefault(subj, set()).update(n_ for n_ in names_ if n_ in isa_real)
+                if len(node_.orelse) == 1 and isinstance(node_.orelse[0], ast.If):
+                    node_ = node_.orelse[0]
+                else:
+                    break
+    ctx.setcount('dispatch_branches', nbr)
+    ctx.floor('dispatch_branches', 25)
+    # EXISTS / NOT EXISTS / NOT x / - x by interpretation, with the real class hierarchy deciding isinstance
+    stmt_ = Elem('statement')
+    a_ = Obj('Identifier', parts=['a'], alias=None, parentheses=False)
+    rows_ = [('exists', Obj('Exists', query=Obj('Select'), op='exists', args=[], alias=None, parentheses=False), lambda r: r.kind == 'op:exists' and r.args[0] is stmt_),
+             ('not exists', Obj('NotExists', query=Obj('Select'), op='not exists', args=[], alias=None, parentheses=False),
+              lambda r: r.kind in ('op:__invert__', 'op:sa.not_') and isinstance(r.args[0], Elem) and r.args[0].kind == 'op:exists' and r.args[0].args[0] is stmt_),
+             ('not a', Obj('UnaryOperation', op='not', args=[a_], alias=None, parentheses=False),
+              lambda r: r.kind in ('op:__invert__', 'op:sa.not_') and isinstance(r.args[0], Elem) and r.args[0].kind == 'column'),
+             ('NOT a', Obj('UnaryOperation', op='NOT', args=[a_], alias=None, parentheses=False),
+              lambda r: r.kind in ('op:__invert__', 'op:sa.not_') and isinstance(r.args[0], Elem) and r.args[0].kind == 'column'),
+             ('- a', Obj('UnaryOperation', op='-', args=[a_], alias=None, parentheses=False),
+              lambda r: r.kind == 'op:__neg__' and isinstance(r.args[0], Elem) and r.args[0].kind == 'column')]
+    for label_, node_, good in rows_:
+        stubs = sa_stubs()
+        stubs.update({'self.get_alias': lambda it, x: x, 'self.to_column': lambda it, parts: Elem('column', tuple(parts)), 'self.prepare_select': lambda it, q, *a, **k: stmt_})
+        it = Interp.for_file(ctx.src, FILE, isa_real, stubs)
+        it.stubs['getattr'] = elem_getattr
+        try:
+            res = it.call_function(te, [Obj('SqlalchemyRender', dialect=Obj('Dialect', name='postgresql')), node_], {}, Env())
+            ok = isinstance(res, Elem) and bool(good(res))
+            shown = repr(res) + (' of ' + repr(res.args) if isinstance(res, Elem) else '')
+        except Raised as r:
+            ok, shown = r.exc_name == 'NotImplementedError', f'<{r.exc_name}>'
+        ctx.ob('C06.predicate-table', label_, ok, f'`{label_}` is translated to {shown}: the predicate the tree denotes is not the one rendered', file=FILE, line=te.lineno,
+               witness='select * from t where not exists (select 1 from s)')
     # clause coverage -----------------------------------------------------------------------------------------------------
     model = model_for(ctx.src)
     fns = {m.name: m for m in cls.body if isinstance(m, ast.FunctionDef)}
